@@ -157,6 +157,7 @@ class FakePort:
         self.port = name
         self.is_open = True
         self.timeout = 1.0
+        self.latency = 0.0         # seconds every readline() really takes (a slow link); 0 = immediate
         self.on_io = None          # optional callback(kind, event) for online monitors
 
     # -- pyserial API used by plotink ---------------------------------------------------
@@ -175,6 +176,9 @@ class FakePort:
         return len(data)
 
     def readline(self):
+        if self.latency:
+            import time
+            time.sleep(self.latency)
         ev = self.log.add("read", port=self.name)
         if self.on_io:
             self.on_io("read", ev)
